@@ -347,6 +347,13 @@ func (e *Engine) Run() (err error) {
 			e.noteAssumption("pointer receivers of functions under contract are non-nil")
 		}
 	}
+	if fn.Name() == "init" && fn.Pkg != nil {
+		// the package initializer runs once: its guard variable is false on entry
+		if g, ok := fn.Pkg.Members["init$guard"].(*ssa.Global); ok {
+			v := e.loadPtr(st, &Ptr{Kind: pGlobal, Glob: g, Root: g.Type().(*types.Pointer).Elem()})
+			st.assume(fmt.Sprintf("(not %s)", v.T))
+		}
+	}
 	e.declareGhosts(st, u.C)
 	st.old = st.snapshot()
 	env := e.envFor(st, fr, st.old)
